@@ -1069,7 +1069,7 @@ func init() {
 			emptyFile := filepath.Join(tmp, "empty-tree.ged")
 			os.WriteFile(emptyFile, []byte("0 HEAD\n1 CHAR UTF-8\n0 TRLR\n"), 0o644)
 			addBig := func(label, kind, text, outDir string, args ...string) {
-				runs = append(runs, &c14Run{file: args[0], text: "(generated: " + label + ")", kind: kind, args: args[1:], outDir: outDir,
+				runs = append(runs, &c14Run{file: args[0], text: text, kind: kind, args: args[1:], outDir: outDir,
 					limit: 180 * time.Second, label: label})
 			}
 			for _, sz := range append(sizes, wide...) {
@@ -1079,23 +1079,24 @@ func init() {
 				os.WriteFile(file, []byte(c14Large(sz.n, sz.fam, sz.places, sz.sour, "I")), 0o644)
 				os.WriteFile(renum, []byte(c14Large(sz.n, sz.fam, sz.places, sz.sour, "P")), 0o644)
 				c.Count(label)
+				regen := fmt.Sprintf("(generated; print it with: /verif/.build/gvh worker c14large %d %d %d %d I   — the renumbered copy with prefix P, the empty tree is 0 HEAD / 1 CHAR UTF-8 / 0 TRLR)", sz.n, sz.fam, sz.places, sz.sour)
 				out := func(s string) string { return filepath.Join(tmp, fmt.Sprintf("big-%d-%d-%s", sz.n, sz.fam, s)) }
-				addBig(label, "warnings", "", "", file, "warnings", file)
-				addBig(label, "query", "", "", file, "query", "-gedcom", file, "-format", "json", ".Individuals | Length")
-				addBig(label+" merged with an empty tree", "query", "", "", file, "query", "-gedcom", file, "-gedcom", emptyFile, "-format", "gedcom",
+				addBig(label, "warnings", regen, "", file, "warnings", file)
+				addBig(label, "query", regen, "", file, "query", "-gedcom", file, "-format", "json", ".Individuals | Length")
+				addBig(label+" merged with an empty tree", "query", regen, "", file, "query", "-gedcom", file, "-gedcom", emptyFile, "-format", "gedcom",
 					"MergeDocumentsAndIndividuals(Document1, Document2)")
 				if sz.n > 1000 {
-					addBig(label+" vs an empty tree", "diff", "", out("d1.html"), file, "diff", "-left-gedcom", file, "-right-gedcom", emptyFile, "-output", out("d1.html"))
-					addBig(label+" vs itself", "diff", "", out("d2.html"), file, "diff", "-left-gedcom", file, "-right-gedcom", file, "-output", out("d2.html"), "-jobs", "8")
-					addBig(label+" vs a renumbered copy", "diff", "", out("d3.html"), file, "diff", "-left-gedcom", emptyFile, "-right-gedcom", renum, "-output", out("d3.html"), "-show", "only-matches")
+					addBig(label+" vs an empty tree", "diff", regen, out("d1.html"), file, "diff", "-left-gedcom", file, "-right-gedcom", emptyFile, "-output", out("d1.html"))
+					addBig(label+" vs itself", "diff", regen, out("d2.html"), file, "diff", "-left-gedcom", file, "-right-gedcom", file, "-output", out("d2.html"), "-jobs", "8")
+					addBig(label+" vs a renumbered copy", "diff", regen, out("d3.html"), file, "diff", "-left-gedcom", emptyFile, "-right-gedcom", renum, "-output", out("d3.html"), "-show", "only-matches")
 					if !c.Quick() {
-						addBig(label+" vs a renumbered copy", "diff", "", out("d4.html"), file, "diff", "-left-gedcom", file, "-right-gedcom", renum, "-output", out("d4.html"), "-jobs", "8",
+						addBig(label+" vs a renumbered copy", "diff", regen, out("d4.html"), file, "diff", "-left-gedcom", file, "-right-gedcom", renum, "-output", out("d4.html"), "-jobs", "8",
 							"-sort", "highest-similarity")
-						addBig(label, "publish", "", out("pub"), file, "publish", "-gedcom", file, "-output-dir", out("pub"), "-living", "placeholder", "-jobs", "8")
+						addBig(label, "publish", regen, out("pub"), file, "publish", "-gedcom", file, "-output-dir", out("pub"), "-living", "placeholder", "-jobs", "8")
 					}
 				} else {
-					addBig(label, "publish", "", out("pub"), file, "publish", "-gedcom", file, "-output-dir", out("pub"), "-living", "hide", "-jobs", "8")
-					addBig(label+" vs itself", "diff", "", out("d2.html"), file, "diff", "-left-gedcom", file, "-right-gedcom", file, "-output", out("d2.html"), "-jobs", "8")
+					addBig(label, "publish", regen, out("pub"), file, "publish", "-gedcom", file, "-output-dir", out("pub"), "-living", "hide", "-jobs", "8")
+					addBig(label+" vs itself", "diff", regen, out("d2.html"), file, "diff", "-left-gedcom", file, "-right-gedcom", file, "-output", out("d2.html"), "-jobs", "8")
 				}
 			}
 		}
